@@ -150,7 +150,13 @@ func askModel(h *History, usePin bool) (steps []modelStep, reach map[int]string)
 			continue
 		}
 		op = strings.TrimSuffix(op, " anon") // names are not part of the model
-		a := orc.Askf("c09 op %d %s", id, op)
+		// (the name an instance is registered under is not part of the model: "as:<j>" - reuse the name of the closed
+		// instance j - is an instruction for the real side only)
+		mop := op
+		if i := strings.Index(mop, " as:"); i >= 0 {
+			mop = mop[:i]
+		}
+		a := orc.Askf("c09 op %d %s", id, mop)
 		f := strings.Fields(a)
 		if len(f) != 4 {
 			hx.Fatal("oracle answer %q", a)
@@ -422,6 +428,12 @@ func corpus() []*History {
 			"pass 1 imp 1 tab:0", "call 1 tab:0 4", "pass 1 imp 1 glob", "pass 1 glob 1 tab:3", "gc", "call 1 tab:3 9")
 		// safe although undisciplined: B imports from A and stores A's own reference in its private table
 		mk(false, "inst 0 - priv", "inst 1 0 priv", "pass 0 own 1 tab:1", "close 0", "closecm 0", "drop 0", "gc", "call 1 tab:1 4")
+		// safe: the plugin-reload pattern - a named importer of the table is closed, a SECOND instance takes the same name,
+		// imports the same table, stores its own function there and is closed and dropped in turn: the live owner keeps
+		// calling the slot (whatever keeps a table's referents alive goes by identity, not by name)
+		mk(false, "inst 0 - exp", "inst 1 - imp:0", "pass 1 own 0 tab:1", "call 0 tab:1 3", "close 1", "closecm 1", "drop 1",
+			"inst 2 - imp:0 as:1", "pass 2 own 0 tab:1", "call 0 tab:1 3", "close 2", "closecm 2", "drop 2", "gc", "call 0 tab:1 3",
+			"inst 3 - imp:0 as:1", "pass 3 own 0 tab:2", "close 3", "closecm 3", "drop 3", "gc", "call 0 tab:2 3", "call 0 tab:1 3")
 		// closed but reachable: ordinary error
 		mk(false, "inst 0 - priv", "inst 1 - priv", "pass 0 own 1 tab:2", "close 0", "gc", "call 0 host 1", "call 1 tab:2 5", "pass 0 own 1 tab:3")
 		// runtime closed: every call is the ordinary error, also after GC
